@@ -98,3 +98,11 @@ def stamp(detector, **kwargs):
     detector.image.array = np.full(shape, 30 + i, dtype=np.uint16)
     detector.charge.add_charge_array(np.full(shape, 40.0 + i))      # in place, as the charge-generation models do
     STAMPS.append({n: np.array(getattr(detector, n).array) for n in ("photon", "pixel", "signal", "image", "charge")})
+
+
+def set_image(detector, level=0.0, gain=1.0, **kwargs):
+    """Deterministic model for calibration replays: image = level * gain everywhere (float image via the pixel/signal
+    chain is not needed: the fitness reads the 'image' bucket)."""
+    import numpy as np
+    probe(detector, level=level, gain=gain, **kwargs)
+    detector.image.array = np.full(detector.geometry.shape, int(round(level * gain)), dtype=np.uint16)
